@@ -15,7 +15,7 @@ m={
  "engines":[{"name":"gverif","path":"/verif/engine","serves_properties":sorted(claims['claimed'].keys()),
    "kind_free_text":"contract-based deductive verifier for Go written for this task: contracts as //@ comments in /repo (tag verif), go/ssa -> verification conditions -> z3 4.8.12 / z3 5.1.0 / cvc5 1.0.3"}],
  "checks":[], "not_applicable":[],
- "notes":"Every check is the same engine run on the obligations tagged with the property. Kernel-only claims: DESIGN.md section 8 names, per property, which functions are under contract and what is not covered."
+ "notes":"Every check is the same engine run on the obligations tagged with the property. Kernel-only claims: DESIGN.md part A.2 (as built) and section 8 name, per property, which functions are under contract and what is not covered."
 }
 for p in props:
     pid=p['id']
@@ -28,7 +28,7 @@ for p in props:
          "evidence_file":"/verif/evidence/%s.json"%pid,
          "replay_cmd_template":"/verif/bin/gverif replay {path}",
          "engine":"gverif",
-         "level_claimed":{"category":"proof","text":c['text'],"design_ref":"DESIGN.md §8 "+pid},
+         "level_claimed":{"category":"proof","text":c['text'],"design_ref":"DESIGN.md part A.2 (as built) and §8 "+pid},
          "level_note":c.get('note',"Trusted: go/ssa front end, the VC generator in /verif/engine, SMT solvers (unsat answers), assumed/trusted contracts listed in the evidence file; int/int64 arithmetic mathematical (no overflow), narrower types exact."),
          "technique":"contract-based deductive verification of the real code (own VC generator over go/ssa; z3/cvc5)"})
     else:
